@@ -89,6 +89,37 @@ def gen_shift_pack_history(rng):
     return hist, dict(gc=False, after=after)
 
 
+def gen_uncreate_pack_history(rng):
+    """an object is un-created (deleteObject, or undo of its creation) AFTER the pack time and that record is
+    still its latest one; an ordinary transaction follows; the pack frees an old revision.  The index pack()/
+    close() save must not list the un-created object (or must point at the un-creation record): reopening
+    with it has to equal the scan, also for load() of the un-created oid.  Returns (history, pack spec)."""
+    A, B, C = 1, 2, 3
+    tid = L.TID_BASE + rng.randrange(1, 1000)
+    hist = []
+
+    def txn(ops, save=False):
+        nonlocal tid
+        tid += 0x1000000 + rng.randrange(0x1000)
+        hist.append(dict(kind='commit', tid=tid, status=' ', user=['f', 0, 0], desc=['f', rng.choice([0, 4]), 1],
+                         ext=['f', 0, 0], ops=ops, save_index=save))
+    txn([['store', A, ['h', pickled(1, rng.randrange(0, 30)).hex()]]])
+    if rng.random() < 0.5:
+        txn([['store', B, ['h', pickled(2, rng.randrange(0, 30)).hex()]]], save=rng.random() < 0.5)
+        txn([['store', A, ['h', pickled(3, rng.randrange(0, 30)).hex()]]])          # frees A's first revision
+        after = len(hist) - 1
+        txn([['delete', B]] if rng.random() < 0.6 else [['undo', 2]])               # un-creation of B after T
+    else:
+        txn([['store', A, ['h', pickled(3, rng.randrange(0, 30)).hex()]]])          # frees A's first revision
+        after = len(hist) - 1
+        txn([['store', B, ['h', pickled(2, rng.randrange(0, 30)).hex()]]])          # created after T …
+        txn([['undo', 1]] if rng.random() < 0.5 else [['delete', B]])               # … and un-created
+    txn([['store', C, ['h', pickled(4, rng.randrange(0, 30)).hex()]]])              # a later ordinary transaction
+    if rng.random() < 0.5:
+        txn([['store', A, ['h', pickled(5, 3).hex()]]])
+    return hist, dict(gc=False, after=after)
+
+
 def recipe_history():
     """DESIGN section 5 item 9: T1a={C}, T1b={A}; save index; T2a={D}, T2b={A}, T2c={C}; pack"""
     A, C, D = 1, 2, 3
@@ -416,6 +447,22 @@ def part_a(ck, hist, tag, pack=None, model=True):
                 viol.append(('C09:ro-during-pack-differs', 'a read-only open while the file is being packed (before %s) '
                              'shows neither the unpacked nor the packed database' % (ev,),
                              dict(history=hist, pack=pack, target='during-pack', variant=str(ev))))
+    if rr.packed is not None:
+        # the index pack() and close() saved, next to the packed file: open with it == open by scan
+        left = L.read_dir(root)
+        if left.get('Data.fs.index') is not None and left.get('Data.fs') is not None:
+            want = open_dump(wd, {'Data.fs': left['Data.fs']}, oids, tids, writes=True)
+            got = open_dump(wd, {'Data.fs': left['Data.fs'], 'Data.fs.index': left['Data.fs.index']}, oids, tids, writes=True)
+            ck.case([hid, 'packed', 'index-saved-by-pack'], True, None)
+            ck.count('variant:index-saved-by-pack')
+            if 'internal' in got:
+                ck.count('pack-saved-index-used=%s' % got['internal']['used'])
+            if 'error' not in want:
+                diff = ('open raised ' + got['error']) if 'error' in got else first_diff(got['dump'], want['dump'])
+                if diff:
+                    viol.insert(0, ('C09:pack-saved-index-changes-state', 'the packed file reopened with the index that pack()/'
+                                 'close() saved differs from the reopen by scan: %s' % diff,
+                                 dict(history=hist, pack=pack, target='packed', variant='index-saved-by-pack')))
     pack_variants = {}
     if rr.packed is not None:
         targets.append(('packed', rr.packed, len(rr.events), nret_total, False, None))
@@ -717,7 +764,7 @@ def _pre_pack_view(rr):
 
 # ---------------------------------------------------------------- steps that may block
 BLOCKED = object()
-STEP_TIMEOUT = 6
+STEP_TIMEOUT = 4
 
 
 def call_with_timeout(fn, timeout):
@@ -1207,6 +1254,9 @@ def main(argv=None):
         for i in range(4 if not ck.thorough else 60):
             h, pk = gen_shift_pack_history(ck.rng)
             runs.append(('shiftpack%d' % i, h, pk))
+        for i in range(4 if not ck.thorough else 60):
+            h, pk = gen_uncreate_pack_history(ck.rng)
+            runs.append(('uncreatepack%d' % i, h, pk))
         nro = 50 if not ck.thorough else 2000
     all_lines, expectations = [], []
     specs = [dict(name=name, history=hist, pack=pack, seed=ck.rng.randrange(1 << 30), thorough=ck.thorough,
@@ -1255,14 +1305,21 @@ def main(argv=None):
     # ---- read-only sessions
     api_lines = []
     ro_specs += [gen_ro_spec(ck.rng, i) for i in range(nro)]
+    nblocked = 0
     for i, spec in enumerate(ro_specs):
+        if nblocked >= 2:
+            # two sessions already ended in a blocked step: enough failing inputs, keep the run time normal
+            ck.count('ro-sessions-skipped-after-blocked-steps', len(ro_specs) - i)
+            break
         try:
             viol, line, exp, mode, calls = ro_session(ck, spec)
+            nblocked += any('block' in v[0] for v in viol)
         except Exception as e:
             ck.violation('C09:ro-session-raised', 'setting up / running read-only session %d raised %s: %s'
                          % (i, type(e).__name__, str(e)[:160]), spec)
             continue
-        if viol and len(spec['calls']) > 2 and any(not x[0].startswith('C09:ro-iterator-start-') for x in viol):
+        if viol and len(spec['calls']) > 2 and any(not x[0].startswith('C09:ro-iterator-start-') for x in viol) \
+                and not any('block' in x[0] for x in viol):
             # shrink the call list (the session is self-contained)
             sig0 = viol[0][0]
 
